@@ -742,6 +742,7 @@ Definition mul_step (a b : circuit) (st : mstate) (ij : nat * nat) : mstate :=
   let none := {| mnodes := mnodes st; mtbl := mtbl st ++ [None] |} in
   if sdisjoint (nth i sa []) (nth j sb []) then
     if out_units l1 =? out_units l2 then add [(LKron (out_units l1) 2, [i; na + j])] else none
+  else if negb (seqb (nth i sa []) (nth j sb [])) then none
   else if is_input l1 then
     match multiply_inputs l1 l2 with Ok l => add [(l, [])] | Err _ => none end
   else
@@ -829,6 +830,7 @@ Proof.
   destruct (sdisjoint _ _).
   { destruct (out_units l1 =? out_units l2); simpl; auto.
     apply mgood_app; auto. apply mgood_one. intros x []. }
+  destruct (negb (seqb _ _)); [simpl; auto|].
   destruct (is_input l1).
   { destruct (multiply_inputs l1 l2) as [l|e] eqn:Hm; simpl; auto.
     apply mgood_app; auto. apply mgood_one. intros x Hx.
